@@ -53,13 +53,13 @@ CHECKS = {
     "C14": dict(cat="model_checking", tech="fault enumeration at every operator application index, traces validated by TLC (OpThrows action), digest equality with the fault-free baseline",
                 text="For six solver classes the wrapper throws a tagged exception at application k for k over the fault-free run's applications (every 3rd/7th in quick, all and pairs in thorough): the same exception reaches the caller, the event prefix is a behaviour of the spec with OpThrows, and init(); compute() afterwards reproduces the fault-free digest; repeated identical executions leave the same number of live heap blocks.",
                 ref="6 C14"),
-    "C15": dict(cat="model_checking", tech="Davidson.tla design model of the search-space bookkeeping + TLC validation of recorded runs with true residuals",
+    "C15": dict(cat="model_checking", tech="Davidson.tla design model of the search-space bookkeeping, whose operators (DavidsonOps) TLC also replays over the JDIter hook events of every recorded run (sizes, restarts, adjusted parameters) + TLC validation of the recorded results with true residuals",
                 text="Design model: for all (n <= 12, nev, initial, maximal) in the documented domain the small eigenproblem always has at least nev and at most n basis vectors, iterations bounded, documented status. Runs (dense/sparse, four rules, restarts, user guesses, second compute on the same object, correction size below nev): Successful implies compute() = nev, every true residual (recomputed from the harness' own A in long double) below tol, unit norm, orthonormal, ordered by the rule, and the returned set is the wanted end of the reference spectrum; results always finite.",
                 ref="6 C15"),
-    "C16": dict(cat="model_checking", tech="PartialSVD.tla design model of the compute/matrix_U/matrix_V cache protocol (with negative control) + TLC validation of recorded runs against a long double reference SVD",
+    "C16": dict(cat="model_checking", tech="TLC-generated call sequences of MC_SVDSeq (all behaviours up to a length bound, TLC -dump) executed on the real PartialSVDSolver and replayed by TLC through the same SV_* operators (spec -> code -> spec); Apalache proves the read invariants inductive for unbounded calls; PartialSVD.tla design model with negative control; TLC validation of recorded runs against a long double reference SVD",
                 text="Design model: every sequence of compute/matrix_U/matrix_V up to 6 calls reads the most recent computation and min(k, nconv) columns. Runs (tall/wide/square, dense col/row-major, sparse, rank-deficient, close singular values with partial convergence, two compute() calls per object): finite non-negative non-increasing singular values matching the reference, U'U = V'V = I, AV = US, A'U = VS, column counts for every k and call order, bit-identical to a fresh solver after a second compute().",
                 ref="6 C16"),
-    "C17": dict(cat="model_checking", tech="LOBPCG.tla shape-algebra design model (with negative control) + TLC validation of recorded runs against a long double generalized reference",
+    "C17": dict(cat="model_checking", tech="LOBPCG.tla shape-algebra design model (with negative control), whose operators (LOBPCGOps) TLC also replays over the LobIter hook events of every recorded run + TLC validation of recorded results against a long double generalized reference",
                 text="Design model: all n <= 14, 5k < n, block-size sequences: every product conformable, eigenvectors() is n x k, residuals() n x k. Runs (sparse symmetric incl. indefinite A, SPD B, preconditioner): when info() reports success the eigenvalues are the k smallest ascending, X is n x k with X'BX = I, residuals() = AX - BX Lambda with column norms below tol*n.",
                 ref="6 C17"),
     "C18": dict(cat="model_checking", tech="exhaustive table of the real argsort/SortEigenvalue checked row by row by TLC against SelectionRule.tla (relation, not transcription)",
